@@ -227,7 +227,8 @@ def decision_tree(
                         rebind([st.targets[0].id])
                         aliases[vname(st.targets[0].id)] = val
                     elif isinstance(st, (ast.Assign, ast.AnnAssign, ast.AugAssign)):
-                        rebind(stores(st))
+                        # (a local the path environment resolves never occurs in a later test under its own name)
+                        rebind({x for x in stores(st) if pe is None or x not in pe.env})
                         tg = st.targets[0] if isinstance(st, ast.Assign) else st.target
                         if isinstance(tg, ast.Name):
                             aliases.pop(vname(tg.id), None)
